@@ -7,6 +7,7 @@ import (
 	"fmt"
 	"os"
 	"path/filepath"
+	"runtime"
 	"strings"
 	"sync"
 	"testing"
@@ -72,6 +73,13 @@ func c35RunBatch(s *c35Srv, batch []*c35Input) []c35Result {
 		go func(i int) {
 			defer wg.Done()
 			t0 := time.Now()
+			defer func() { // a panic of the harness's own client code must never look like a server crash
+				if r := recover(); r != nil {
+					buf := make([]byte, 16384)
+					buf = buf[:runtime.Stack(buf, false)]
+					res[i].Err = fmt.Sprintf("HARNESS-PANIC: %v\n%s", r, buf)
+				}
+			}()
 			res[i] = s.send(batch[i])
 			res[i].Took = time.Since(t0)
 		}(i)
@@ -154,6 +162,13 @@ func c35Live(t *testing.T, name string, restricted bool) {
 			fmt.Printf("C35DBG batch of %d: inputs %v, canaries %v\n", n, tc.Sub(tb).Round(time.Millisecond), time.Since(tc).Round(time.Millisecond))
 		}
 
+		for i := range batch {
+			if strings.HasPrefix(results[i].Err, "HARNESS-PANIC") {
+				dead = "VERIF-INCONCLUSIVE: the harness's own client code panicked (not a server crash): " + results[i].Err
+				fmt.Println(dead)
+				t.Fatalf("%s", dead)
+			}
+		}
 		for i, in := range batch {
 			r := results[i]
 			classes := []string{"gen:" + in.Cls, "listener:" + in.L, fmt.Sprintf("oddity-level:%d", levels[i])}
